@@ -447,7 +447,7 @@ fn shrink<P: Prop>(mut case: P::Case, mut fail: Fail, ctx: &mut Ctx) -> (P::Case
         extra: BTreeMap::new(),
         nondeciding: false,
     };
-    let deadline = Instant::now() + Duration::from_secs(if cfg!(miri) { 0 } else { 5 });
+    let deadline = Instant::now() + Duration::from_secs(if cfg!(miri) { 0 } else { 2 });
     let mut progress = true;
     while progress && Instant::now() < deadline {
         progress = false;
